@@ -144,6 +144,26 @@ fn c16(seed: u64) {
                 let (rc, exp) = unsafe { fail(&t, &mut err, kind, &bytes) };
                 assert_eq!(rc, -1, "LANE-M harness: failing call kind {} did not fail", kind);
                 std::thread::yield_now();
+                // a failing call that declines the description (NULL out-pointer): nothing may be
+                // written through it; this thread's next read may show either description
+                let mut alt: Option<String> = None;
+                if rng.below(3) == 0 {
+                    let name = b"a..b";
+                    let mut raw = [0u8; 256];
+                    let mut raw_len = 0usize;
+                    let rc = unsafe {
+                        (t.raw_name_from_str)(
+                            &mut raw,
+                            &mut raw_len,
+                            std::ptr::null_mut(),
+                            name.as_ptr() as *const _,
+                            name.len(),
+                        )
+                    };
+                    assert_eq!(rc, -1, "LANE-M harness: failing call with a NULL out-pointer did not fail");
+                    alt = Some(dgen::raw_name_from_str(name, None).unwrap_err().to_string());
+                    std::thread::yield_now();
+                }
                 // a succeeding call must not disturb the description
                 if rng.below(2) == 0 {
                     let pp = parse(&bytes);
@@ -153,7 +173,7 @@ fn c16(seed: u64) {
                 let got = unsafe { CStr::from_ptr((t.error_description)(err)) }
                     .to_string_lossy()
                     .into_owned();
-                if got != exp {
+                if got != exp && alt.as_ref() != Some(&got) {
                     panic!(
                         "LANE-M VIOLATION property=C16 thread {} read {:?} but its most recent failure was {:?}",
                         i, got, exp
